@@ -725,6 +725,8 @@ def mtvrp_flags(variant):
 
 
 def mtvrp_preset(variant):
+    if (variant or "").startswith("mix:"):
+        return "all"
     o, tw, l, b = mtvrp_flags(variant)
     if not (o or tw or l or b):
         return "cvrp"
@@ -742,10 +744,13 @@ class MTVRPSpec(Spec):
     def instance(self, src, B, n, variant):
         from symtorch import dist as DS
 
-        Of, TWf, Lf, Bf = mtvrp_flags(variant)
+        # "mix:TW/L": the rows of the batch cycle through several variants (what the 'all' preset of the generator produces)
+        row_variants = variant[4:].split("/") if (variant or "").startswith("mix:") else [variant]
         rows, cols = [], {k: [] for k in ("locs", "dl", "db", "limit", "tw", "svc", "open", "cap", "cap0", "speed")}
         inf = math.inf
         for b in range(B):
+            vb = row_variants[b % len(row_variants)]
+            Of, TWf, Lf, Bf = mtvrp_flags(vb)
             X, Y = src.coords(f"r{b}_", n + 1)
             dem = [0.0] + [src.real(f"r{b}_d{j}", 0, 1, lo_strict=True) for j in range(1, n + 1)]
             isb = [False] + [(z3.Bool(f"r{b}_isback{j}") if Bf else False) for j in range(1, n + 1)]
@@ -768,7 +773,7 @@ class MTVRPSpec(Spec):
                 for j in range(1, n + 1):
                     src.assume(2 * DS.norm2(X[j] - X[0], Y[j] - Y[0]) < limit)
 
-            rows.append({"X": X, "Y": Y, "dl": dl, "db": db, "isback": isb, "early": e, "late": l, "service": sv, "limit": limit})
+            rows.append({"X": X, "Y": Y, "dl": dl, "db": db, "isback": isb, "early": e, "late": l, "service": sv, "limit": limit, "variant": vb})
             cols["locs"].append([[x, y] for x, y in zip(X, Y)])
             cols["dl"].append(dl), cols["db"].append(db), cols["limit"].append([limit])
             cols["tw"].append([[a_, b_] for a_, b_ in zip(e, l)]), cols["svc"].append(sv)
@@ -785,13 +790,19 @@ class MTVRPSpec(Spec):
         for b in range(B):
             L = td["locs"].a[b]
             dl, db = list(td["demand_linehaul"].a[b]), list(td["demand_backhaul"].a[b])
-            rows.append({"X": list(L[:, 0]), "Y": list(L[:, 1]), "dl": dl, "db": db, "isback": [x > 0 for x in db],
-                         "early": list(td["time_windows"].a[b, :, 0]), "late": list(td["time_windows"].a[b, :, 1]),
-                         "service": list(td["service_time"].a[b]), "limit": td["distance_limit"].a[b, 0]})
+            row = {"X": list(L[:, 0]), "Y": list(L[:, 1]), "dl": dl, "db": db, "isback": [x > 0 for x in db],
+                   "early": list(td["time_windows"].a[b, :, 0]), "late": list(td["time_windows"].a[b, :, 1]),
+                   "service": list(td["service_time"].a[b]), "limit": td["distance_limit"].a[b, 0]}
+            if (variant or "").startswith("mix:"):  # mixed batch: read the row's features off its data
+                o_ = bool(td["open_route"].a[b, 0])
+                tw_ = not (isinstance(row["late"][1], float) and math.isinf(row["late"][1]))
+                l_ = not (isinstance(row["limit"], float) and math.isinf(row["limit"]))
+                row["variant"] = ("O" if o_ else "") + ("B" if any(x > 0 for x in db) else "") + ("L" if l_ else "") + ("TW" if tw_ else "")
+            rows.append(row)
         return rows
 
     def oracle(self, row, n, variant):
-        return MTVRPOracle(row, n, mtvrp_flags(variant))
+        return MTVRPOracle(row, n, mtvrp_flags(row.get("variant", variant) if (variant or "").startswith("mix:") else variant))
 
 
 SPECS = {s.name: s for s in (TSPSpec(), ATSPSpec(), CVRPSpec(), SDVRPSpec(), OPSpec(), PCTSPSpec(), SPCTSPSpec(), PDPSpec(), MTSPSpec(),
